@@ -75,3 +75,10 @@ Qed.
    ADDS the histories outside the side condition *)
 Lemma c02_judge_unc_extends : forall c, in_domain c = true -> c02_judge_unc c = c02_judge c.
 Proof. intros c Hd. unfold c02_judge_unc, c02_judge. rewrite Hd. reflexivity. Qed.
+
+Print Assumptions monitor_reject_violates.
+Print Assumptions c02_judge_unc_one.
+Print Assumptions c02_judge_unc_zero.
+Print Assumptions c02_judge_one.
+Print Assumptions c02_judge_zero.
+Print Assumptions c02_judge_unc_extends.
